@@ -11,6 +11,10 @@ LONG = "p" * 4999
 LONG_ARGS = dict(pids=[LONG + "q", LONG, "b"], contents=[C_ONE, C_MULTI], formats=[None], sym_dirs=False)
 
 
+# canonically equivalent spellings of one text are two identifiers, each with its own reference
+NORM_ARGS = dict(pids=["caf\u00e9", "cafe\u0301", "b"], contents=[C_ONE, C_MULTI], formats=[None], sym_dirs=False)
+
+
 def long_menu(w):
     return object_menu(w, with_invalid=False, with_reads=True)
 
@@ -18,7 +22,7 @@ def long_menu(w):
 def main(tier, replay_payload=None):
     w_args = universe(tier)
     menu_fn = full_menu
-    parts = dict(main=(w_args, menu_fn), long=(LONG_ARGS, long_menu))
+    parts = dict(main=(w_args, menu_fn), long=(LONG_ARGS, long_menu), norm=(NORM_ARGS, long_menu))
     if replay_payload is not None:
         return make_multi_replayer(parts)(replay_payload)
     run = report.Run("C04", tier, technique="pathsym inductive step; C04 as one z3 formula over all cids and pids")
@@ -26,6 +30,7 @@ def main(tier, replay_payload=None):
     res = step.explore_steps(w_args, menu_fn)
     collect(run, res, MINE, w_args, menu_fn)
     collect(run, step.explore_steps(LONG_ARGS, long_menu), MINE, LONG_ARGS, long_menu, part="long")
+    collect(run, step.explore_steps(NORM_ARGS, long_menu), MINE, NORM_ARGS, long_menu, part="norm")
     run.functions = loader.function_lines(loader.load(), API_FUNCS)
     run.bounds = dict(pids=w_args["pids"], contents=[len(c) for c in w_args["contents"]], formats=w_args["formats"],
                       long_reference_list="two 5000-character pids and a short one on one object (list > 8 KiB)",
